@@ -61,6 +61,34 @@ ManyCases(x) ==
 LongFixed(x) == IF x \in {"SnssaiToModels", "DecodeLocalTimeZone", "DecodeDaylightSavingTime", "DecodeUniversalTimeAndLocalTimeZone"} THEN {}
                 ELSE {<<f>> \o Fill(p, len - 1) : f \in {1, 17, 3, 13, 242}, p \in {0, 33}, len \in {32, 255, 300}}
 
+\* identity contents by NIBBLE structure (TS 24.501 9.11.3.4: type of identity and odd/even indication in the first octet,
+\* then BCD digits two per octet, 0xF as filler): every type x odd/even x a decimal / zero high half, at the exact
+\* and exact+1 lengths of the layouts, all octets decimal digits, and ONE octet replaced by a non-decimal low nibble, a
+\* non-decimal high nibble, a filler in either half, both - at every position.  Code that computes with digits
+\* (check digits, digit counts, table look-ups by digit) meets its corner here, not under random octets.
+IdentityHelpers == GetterNames \cup {"SuciToStringWithError", "SuciToString", "NaiToString", "GutiToStringWithError", "GutiToString",
+                                     "PeiToStringWithError", "PeiToString"}
+NibFirst == {ty + 8 * odd + 16 * hi : ty \in 0..7, odd \in 0..1, hi \in {0, 9}}
+NibLens(x) == IF x \in GetterNames THEN {4, 8, 11} ELSE {g + d : g \in Guards(x) \cap 3..12, d \in 0..1} \cup {8}
+NibBases == {33, 9}                            \* 0x21, 0x09
+NibForeign == {10, 160, 15, 171}               \* 0x0A, 0xA0, 0x0F, 0xAB
+NibbleCases(x) ==
+  IF x \notin IdentityHelpers THEN {}
+  ELSE UNION {{<<f>> \o Fill(p, len - 1)} \cup {[(<<f>> \o Fill(p, len - 1)) EXCEPT ![i] = q] : i \in 2..len, q \in NibForeign}
+              : f \in NibFirst, p \in NibBases, len \in NibLens(x)}
+
+\* DNN contents from the vocabulary of TS 23.003 9.1 / 9A (operator identifier mnc<MNC>.mcc<MCC>.gprs, the 3gppnetwork.org
+\* realm) in every combination of up to four labels, upper and lower case, with the empty label: code that looks for these
+\* words meets its corner cases (the word alone, too few labels before it, repeated) here.
+Vocab == << <<103, 112, 114, 115>>, <<71, 80, 82, 83>>, <<109, 110, 99, 48, 48, 49>>, <<109, 99, 99, 48, 48, 49>>,
+           <<111, 114, 103>>, <<51, 103, 112, 112, 110, 101, 116, 119, 111, 114, 107>>, <<97>>, <<>>, <<77, 67, 67>>, <<109, 110, 99>> >>
+Label(k) == <<Len(Vocab[k])>> \o Vocab[k]
+VocabCases(x) ==
+  IF x # "DNN.GetDNN" THEN {}
+  ELSE LET V == 1..Len(Vocab) IN
+       {Label(a) : a \in V} \cup {Label(a) \o Label(b) : a, b \in V} \cup {Label(a) \o Label(b) \o Label(c) : a, b, c \in V}
+       \cup {Label(a) \o Label(b) \o Label(c) \o Label(d) : a, b \in V, c, d \in 1..5}
+
 \* texts: boundary lengths beyond the exhaustive sweep, one foreign character at chosen positions
 TextBase == {48, 57, 97, 70}
 TextLens == {7, 8, 10, 12, 18, 19, 20, 21, 24}
@@ -71,9 +99,9 @@ TextCases ==
 CasesOf(x) ==
   IF x \in TextHelpers THEN {[h |-> x, text |-> TRUE, wf |-> FALSE, in |-> SubSeq(s, 1, Len(s))] : s \in TextCases}   \* SubSeq: force a tuple
   ELSE IF x \in LoopHelpers
-       THEN {[h |-> x, text |-> FALSE, wf |-> FALSE, in |-> s] : s \in LoopCases(x) \ ManyCases(x)}
+       THEN {[h |-> x, text |-> FALSE, wf |-> FALSE, in |-> s] : s \in (LoopCases(x) \cup VocabCases(x)) \ ManyCases(x)}
             \cup {[h |-> x, text |-> FALSE, wf |-> TRUE, in |-> s] : s \in ManyCases(x)}
-       ELSE {[h |-> x, text |-> FALSE, wf |-> FALSE, in |-> SubSeq(s, 1, Len(s))] : s \in FixedCases(x) \cup LongFixed(x)}
+       ELSE {[h |-> x, text |-> FALSE, wf |-> FALSE, in |-> SubSeq(s, 1, Len(s))] : s \in FixedCases(x) \cup LongFixed(x) \cup NibbleCases(x)}
 ClassOfCase(c) == IF c.text THEN TextClass(c.h, c.in) ELSE ByteClass(c.h, c.in)
 
 \* The cases of one helper are printed while the invariant is evaluated on that helper's state; the state graph is
